@@ -17,7 +17,7 @@ from ..runner import RuleResult
 from ..facts import AnalysisBroken
 from ..model import strip, strip_all, walk, show, notpl, is_call, call_args, call_receiver
 from .. import flow
-from ..flow import folded
+from ..flow import folded, Guards
 
 EXPLANATION = (
     "Static decision of the structural part of C12 for every catalogue and command: (1) a who-may-create census - "
@@ -325,6 +325,154 @@ def rule_path_confinement(prog, fixture=False):
     return r
 
 
+# ---------------------------------------------------------------- R-C12-3
+IDENTITY_CALLS = ("std::filesystem::equivalent", "stat", "fstat", "lstat", "stat64", "fstat64")
+
+
+def _checks_identity(prog, f, depth=0, seen=None):
+    """Does f (or a repo function it calls) compare file identities?"""
+    seen = seen if seen is not None else set()
+    if f.uid in seen or depth > 4:
+        return False
+    seen.add(f.uid)
+    for n in f.walk():
+        if n.get("k") in ("CallExpr", "CXXMemberCallExpr"):
+            q = notpl(n.get("q") or "")
+            if q in IDENTITY_CALLS or q.endswith("::equivalent"):
+                return True
+            for t in prog.call_targets(f, n):
+                if _checks_identity(prog, t, depth + 1, seen):
+                    return True
+    return False
+
+
+def _image_extensions(prog):
+    """Extensions the image loader recognises: string literals compared with == in
+    the function that selects the image-file class."""
+    exts = set()
+    for f in prog.functions.values():
+        if not f.relfile().endswith("img_load.cc"):
+            continue
+        for n in f.walk():
+            if n.get("k") == "CXXOperatorCallExpr" and n.get("op") == "==":
+                for o in n["c"][1:]:
+                    for x in walk(o):
+                        if x.get("k") == "StringLiteral" and x.get("s") and len(x["s"]) <= 4 and x["s"].isalnum():
+                            exts.add(x["s"])
+    return exts
+
+
+def _constant_suffix(prog, fn, e, depth=0):
+    """A string literal with which the value of e certainly ends, or None."""
+    e = strip_all(e)
+    if e is None or depth > 5:
+        return None
+    k = e.get("k")
+    if k == "StringLiteral":
+        return e.get("s") or None
+    if k in ("CXXConstructExpr", "CXXTemporaryObjectExpr", "CXXFunctionalCastExpr", "CXXBindTemporaryExpr") and e.get("c"):
+        args = [c for c in e["c"] if (strip(c) or {}).get("k") != "CXXDefaultArgExpr"]
+        if len(args) == 1:
+            return _constant_suffix(prog, fn, args[0], depth + 1)
+        return None
+    if k == "CXXOperatorCallExpr" and e.get("op") == "+" and len(e["c"]) == 3:
+        return _constant_suffix(prog, fn, e["c"][2], depth + 1)
+    if k == "DeclRefExpr" and e.get("dk") in ("Var", "ParmVar"):
+        written = False
+        for n in fn.walk():
+            for d, _ in flow.written_decls(n):
+                if d == e.get("d"):
+                    written = True
+        if written:
+            return None
+        for n in fn.walk():
+            if n.get("k") == "VarDecl" and n.get("d") == e.get("d") and n.get("c"):
+                return _constant_suffix(prog, fn, n["c"][0], depth + 1)
+        if e.get("dk") == "ParmVar":
+            idx = [i for i, p in enumerate(fn.params) if p["d"] == e["d"]]
+            sufs = set()
+            for g in prog.functions.values():
+                for c in g.walk():
+                    if c.get("k") in ("CallExpr", "CXXMemberCallExpr") and fn in prog.call_targets(g, c):
+                        a = call_args(c)
+                        if idx and idx[0] < len(a):
+                            sufs.add(_constant_suffix(prog, g, a[idx[0]], depth + 1))
+            if len(sufs) == 1:
+                return sufs.pop()
+        return None
+    if k in ("CallExpr", "CXXMemberCallExpr"):
+        callee = strip(e["c"][0]) if e.get("c") else None
+        # ss.str() of a local stream whose last insertion is a literal
+        if k == "CXXMemberCallExpr" and callee and callee.get("n") == "str" and callee.get("c"):
+            obj = strip_all(callee["c"][0])
+            last = None
+            for n in fn.walk():
+                if n.get("k") == "CXXOperatorCallExpr" and n.get("op") == "<<" and len(n["c"]) == 3:
+                    root = n
+                    while True:
+                        l = strip_all(root["c"][1])
+                        if l is not None and l.get("k") == "CXXOperatorCallExpr" and l.get("op") == "<<":
+                            root = l
+                        else:
+                            break
+                    if l is not None and obj is not None and l.get("d") == obj.get("d"):
+                        p = fn.parent(n)
+                        while p is not None and p.get("k") in ("ImplicitCastExpr", "ExprWithCleanups"):
+                            p = fn.parent(p)
+                        if p is None or not (p.get("k") == "CXXOperatorCallExpr" and p.get("op") == "<<"):
+                            last = n   # outermost insertion of a statement; later statements override
+            if last is not None:
+                return _constant_suffix(prog, fn, last["c"][2], depth + 1)
+            return None
+        ts = prog.call_targets(fn, e)
+        if len(ts) == 1:
+            rets = [n for n in ts[0].walk() if n.get("k") == "ReturnStmt" and n.get("c")]
+            sufs = {_constant_suffix(prog, ts[0], r_["c"][0], depth + 1) for r_ in rets}
+            if len(sufs) == 1:
+                return sufs.pop()
+    return None
+
+
+def rule_not_an_input(prog, fixture=False):
+    r = RuleResult("R-C12-3", "a file is created under a name taken from the command line or the catalogue only "
+                   "after it was shown not to be one of the image files being read (a dominating file-identity "
+                   "test on that path, or an exclusive create): otherwise opening it truncates the input",
+                   floor=0 if fixture else 3)
+    exts = _image_extensions(prog) or ({"ssd", "gz"} if fixture else set())
+    if not exts and not fixture:
+        raise AnalysisBroken("cannot find the image-file extensions the loader compares against")
+    r.info["image_extensions"] = sorted(exts)
+    for fn, n, kind, path in creation_sites(prog):
+        if path is None or kind.startswith("fopen:r") or kind == "tmpfile":
+            continue
+        key = "%s::%s::%s(%s)" % (fn.relfile(), fn.qn, kind, show(path)[:50])
+        ok, why = False, ""
+        if kind.startswith("fopen:") and "x" in kind[6:]:
+            ok, why = True, "exclusive create"
+        if not ok:
+            suf = _constant_suffix(prog, fn, path)
+            if suf and "." in suf and "/" not in suf:
+                ext = suf.rsplit(".", 1)[1]
+                if exts and ext not in exts:
+                    ok, why = True, "the name always ends in %r, which the image loader does not accept" % suf
+        if not ok:
+            g = Guards(fn)
+            for atom, truth in (g.truths(n) or []):
+                a = strip_all(atom)
+                if a is None or not is_call(a):
+                    continue
+                q = notpl(a.get("q") or "")
+                direct = q in IDENTITY_CALLS or q.endswith("::equivalent")
+                via = any(_checks_identity(prog, t) for t in prog.call_targets(fn, a))
+                if direct or via:
+                    ok, why = True, "dominated by the identity test %s" % show(a)[:60]
+        r.add(key, fn.loc(n), ok, why if ok else
+              "`%s` is opened for writing (truncating) without any test that it is not one of the image files "
+              "being read: an image stored in the destination directory under the name of one of its own files "
+              "is destroyed" % show(path))
+    return r
+
+
 def rule_ir_census(ctx):
     """Thorough tier: file-modifying entry points among the linked program's
     undefined external symbols must be explainable by the confirmed table."""
@@ -349,7 +497,7 @@ def rule_ir_census(ctx):
 
 def run(ctx):
     prog = ctx.prog("dfs", "N")
-    res = [rule_census(prog), rule_path_confinement(prog)]
+    res = [rule_census(prog), rule_path_confinement(prog), rule_not_an_input(prog)]
     if ctx.tier == "thorough":
         res.append(rule_ir_census(ctx))
     return res
@@ -358,4 +506,5 @@ def run(ctx):
 SELFTESTS = [
     (rule_census, ["c12_bad.cc"], ["c12_good.cc"], "sneaky"),
     (rule_path_confinement, ["c12_bad.cc"], ["c12_good.cc"], "ofstream"),
+    (rule_not_an_input, ["c12_in_bad.cc"], ["c12_in_good.cc"], "write_body"),
 ]
